@@ -70,6 +70,8 @@ def assignments(fn, key):
                     res.append(s.value)
         elif isinstance(s, ast.AugAssign) and target_key(s.target) == key:
             res.append(ast.BinOp(left=s.target, op=s.op, right=s.value))
+        elif isinstance(s, ast.AnnAssign) and s.value is not None and target_key(s.target) == key:
+            res.append(s.value)
     return res
 
 
@@ -188,6 +190,8 @@ class Tr:
             if base in ('min', 'minimum') and len(e.args) == 2:
                 return f'(min {self.tr(e.args[0])} {self.tr(e.args[1])})'
             raise Untranslatable('call ' + nm)
+        if isinstance(e, ast.IfExp):
+            return f'(if {cmp_guard(e.test, self)} then {self.tr(e.body)} else {self.tr(e.orelse)})'
         if isinstance(e, ast.Attribute):
             key = ast.unparse(e)
             if key in self.env:
@@ -272,6 +276,521 @@ def raise_guards(fn):
     return res
 
 
+# ----------------------------------------------------------------------------- structure: statements, stores
+def parent_map(fn):
+    """child AST node -> parent AST node, for every node below `fn`"""
+    pm = {}
+    for p in ast.walk(fn):
+        for c in ast.iter_child_nodes(p):
+            pm[c] = p
+    return pm
+
+
+def ancestors(fn, node, pm=None):
+    """enclosing AST nodes of `node` inside `fn`, innermost first"""
+    pm = pm or parent_map(fn)
+    res = []
+    while node in pm:
+        node = pm[node]
+        res.append(node)
+    return res
+
+
+def nested_func(fn, name):
+    """the function `name` defined inside `fn` (closure)"""
+    return the([n for n in ast.walk(fn) if isinstance(n, ast.FunctionDef) and n.name == name and n is not fn],
+               f'nested function {name}')
+
+
+BINOPS = {ast.BitOr: '|', ast.BitAnd: '&', ast.Add: '+', ast.Sub: '-', ast.Mult: '*', ast.Div: '/', ast.FloorDiv: '//',
+          ast.Mod: '%', ast.Pow: '**', ast.BitXor: '^', ast.MatMult: '@', ast.LShift: '<<', ast.RShift: '>>'}
+
+
+def store_sites(fn, arrays=None):
+    """every statement of `fn` (nested functions included) that stores into `<array>[index]` (or, with `arrays=None`,
+    into any subscripted name): dicts with the array name, the index text, the operator ('=' or 'op=';
+    `a[i] = a[i] op e` is read as `a[i] op= e`), the texts of the enclosing `with` context expressions, the texts of
+    the enclosing `if` tests (with 'not ' prefixed for an else branch), the enclosing loops ('target in iter'), the
+    right-hand side and the statement."""
+    pm = parent_map(fn)
+    res = []
+    for s in ast.walk(fn):
+        if isinstance(s, ast.Assign):
+            tgts, op, rhs = s.targets, '=', s.value
+        elif isinstance(s, ast.AugAssign):
+            tgts, op, rhs = [s.target], BINOPS.get(type(s.op), '?') + '=', s.value
+        else:
+            continue
+        flat = []
+        for t in tgts:
+            flat.extend(t.elts if isinstance(t, (ast.Tuple, ast.List)) else [t])
+        for t in flat:
+            if not (isinstance(t, ast.Subscript) and isinstance(t.value, ast.Name)):
+                continue
+            if arrays is not None and t.value.id not in arrays:
+                continue
+            o, r = op, rhs
+            if o == '=' and isinstance(r, ast.BinOp) and ast.dump(r.left) == ast.dump(ast.copy_location(_as_load(t), r.left)):
+                o, r = BINOPS.get(type(r.op), '?') + '=', r.right
+            withs, tests, loops, child = [], [], [], s
+            for a in ancestors(fn, s, pm):
+                if isinstance(a, ast.With):
+                    withs.extend(ast.unparse(i.context_expr) for i in a.items)
+                if isinstance(a, (ast.For, ast.While)):
+                    loops.append(ast.unparse(a.target) + ' in ' + ast.unparse(a.iter) if isinstance(a, ast.For) else 'while ' + ast.unparse(a.test))
+                if isinstance(a, ast.If) and child is not a.test:
+                    tests.append(('' if child in a.body else 'not ') + ast.unparse(a.test))
+                child = a
+            res.append(dict(array=t.value.id, index=ast.unparse(t.slice), op=o, withs=withs, tests=tests, loops=loops, rhs=r, stmt=s))
+    res.sort(key=lambda d: (d['stmt'].lineno, d['stmt'].col_offset))
+    return res
+
+
+def _as_load(t):
+    t2 = ast.parse(ast.unparse(t), mode='eval').body
+    return t2
+
+
+def load_sites(node, arrays):
+    """index texts of every read `<array>[index]` below `node` (Load context), in source order"""
+    res = []
+    for n in ast.walk(node):
+        if isinstance(n, ast.Subscript) and isinstance(n.ctx, ast.Load) and isinstance(n.value, ast.Name) and n.value.id in arrays:
+            res.append((n.lineno, n.col_offset, n.value.id, ast.unparse(n.slice)))
+    return [(a, i) for _, _, a, i in sorted(res)]
+
+
+def isinstance_class(tests, var):
+    """the class K of the innermost positive `isinstance(<var>, K)` among the enclosing if-tests ('' if none)"""
+    pre = f'isinstance({var},'
+    for t in tests:
+        k = t.replace(' ', '')
+        if k.startswith(pre) and k.endswith(')'):
+            return k[len(pre):-1]
+    return ''
+
+
+def store_site_lean(d, var, arrays):
+    """a `store_sites` record as a Lean `StoreSite` literal; `arrays` = names whose reads on the right-hand side are listed"""
+    r, sel = d['rhs'], ''
+    if isinstance(r, ast.BinOp) and isinstance(r.op, ast.BitAnd):
+        sel = ast.unparse(r.right)
+    reads = ', '.join(f'({lean_str(a)}, {lean_str(i)})' for a, i in load_sites(r, arrays))
+    return ('{ cls := %s, array := %s, index := %s, op := %s, loop := %s, locks := %s, reads := [%s], sel := %s }' % (
+        lean_str(isinstance_class(d['tests'], var)), lean_str(d['array']), lean_str(d['index']), lean_str(d['op']),
+        lean_str(d['loops'][0] if d['loops'] else ''), lean_list([lean_str(w) for w in d['withs']]), reads, lean_str(sel)))
+
+
+def reduction_call(e):
+    """`np.f(a, axis=k)` / `torch.f(a, dim=k)` / `a.f(axis=k)` -> (f, source text of a, k or None, other keyword names)"""
+    if not isinstance(e, ast.Call):
+        raise Untranslatable('not a call: ' + ast.unparse(e))
+    nm = dotted_name(e.func)
+    if isinstance(e.func, ast.Attribute) and (nm is None or nm.split('.')[0] not in ('np', 'numpy', 'torch', 'scipy', 'sp')):
+        f, args = e.func.attr, [e.func.value] + list(e.args)     # method form
+    elif nm is not None:
+        f, args = nm.split('.')[-1], list(e.args)
+    else:
+        raise Untranslatable('call ' + ast.unparse(e))
+    if not args:
+        raise Untranslatable('reduction without an argument: ' + ast.unparse(e))
+    axis, other = None, []
+    for kw in e.keywords:
+        if kw.arg in ('axis', 'dim'):
+            axis = int(const_value(kw.value))
+        else:
+            other.append(kw.arg)
+    if axis is None and len(args) == 2:
+        axis = int(const_value(args[1]))
+    elif len(args) > 1:
+        raise Untranslatable('reduction with extra arguments: ' + ast.unparse(e))
+    return f, ast.unparse(args[0]), axis, sorted(other)
+
+
+def lean_opt_int(k):
+    return 'none' if k is None else f'(some ({k}))'
+
+
+def lean_str(s):
+    return '"' + s.replace('\\', '\\\\').replace('"', '\\"') + '"'
+
+
+def lean_list(xs):
+    return '[' + ', '.join(xs) + ']'
+
+
+# ----------------------------------------------------------------------------- index arithmetic, guards on lists / sets
+PY_PRELUDE = (
+    '/-! Python list / set primitives used by the generated index-arithmetic and guard terms (core Lean only).\n'
+    '    Integer `//` and `%` are rendered as `Int.fdiv` / `Int.fmod` (floor rounding = Python). -/\n'
+    'namespace Py\n'
+    '/-- `set(a) == set(b)` -/\n'
+    'def setEqB (a b : List Nat) : Bool := a.all (fun v => b.contains v) && b.all (fun v => a.contains v)\n'
+    '/-- the distinct elements (`set(l)` as a list; order irrelevant to every use) -/\n'
+    'def dedup : List Nat → List Nat\n  | [] => []\n  | x :: xs => if xs.contains x then dedup xs else x :: dedup xs\n'
+    '/-- `l[:k]` / `l[k:]` with Python\'s reading of a negative bound -/\n'
+    'def take {β : Type} (l : List β) (k : Int) : List β := if k < 0 then l.take (l.length - k.natAbs) else l.take k.toNat\n'
+    'def drop {β : Type} (l : List β) (k : Int) : List β := if k < 0 then l.drop (l.length - k.natAbs) else l.drop k.toNat\n'
+    '/-- boolean-mask selection `x[mask]` on one row -/\n'
+    'def select {β : Type} (x : List β) (m : List Bool) : List β := ((x.zip m).filter (fun p => p.2)).map (fun p => p.1)\n'
+    '/-- `np.arange(start, stop, step)` on integers -/\n'
+    'def arange (start stop step : Int) : List Int :=\n'
+    '  if step > 0 then (List.range (Int.fdiv (stop - start + step - 1) step).toNat).map (fun (i : Nat) => start + step * (i : Int))\n'
+    '  else if step < 0 then (List.range (Int.fdiv (start - stop - step - 1) (-step)).toNat).map (fun (i : Nat) => start + step * (i : Int))\n'
+    '  else []\n'
+    '/-- row-major multi-index of the flat index `d` in `shape` (the leading extent is not used) / its inverse -/\n'
+    'def decode : List Nat → Nat → List Nat\n  | [], _ => []\n'
+    '  | _ :: ss, d => (d / ss.foldl (· * ·) 1) :: decode ss (d % ss.foldl (· * ·) 1)\n'
+    'def encode : List Nat → List Nat → Nat\n  | _ :: ss, i :: is => i * ss.foldl (· * ·) 1 + encode ss is\n  | _, _ => 0\n'
+    '/-- `x.reshape(shape).permute(perm)` read as a gather on flat (row-major) indices: the flat index in `shape` of the\n'
+    '    element found at flat index `d` of the permuted tensor (axis `k` of the result is axis `perm[k]` of the source) -/\n'
+    'def permuteSrc (shape perm : List Nat) (d : Nat) : Nat :=\n'
+    '  let idx := decode (perm.map (fun k => shape.getD k 1)) d\n'
+    '  encode shape ((List.range shape.length).map (fun ax => idx.getD (perm.idxOf ax) 0))\n'
+    'end Py\n'
+    '/-- one store `array[index] op rhs` found in a function: class tested by the enclosing `isinstance` branch, the\n'
+    '    enclosing loop, the context managers held, the `array[index]` reads of the right-hand side, what the\n'
+    '    right-hand side is `&`-ed with -/\n'
+    'structure StoreSite where\n  cls : String\n  array : String\n  index : String\n  op : String\n  loop : String\n'
+    '  locks : List String\n  reads : List (String × String)\n  sel : String\nderiving DecidableEq, Repr')
+
+
+NP_COMPARE = {'less': ast.Lt, 'less_equal': ast.LtE, 'greater': ast.Gt, 'greater_equal': ast.GtE, 'equal': ast.Eq,
+              'not_equal': ast.NotEq, 'lt': ast.Lt, 'le': ast.LtE, 'gt': ast.Gt, 'ge': ast.GtE, 'eq': ast.Eq, 'ne': ast.NotEq}
+
+
+def arange_args(e, tr):
+    """`np.arange(stop)` / `np.arange(start, stop[, step])` -> the three bounds as Lean Int terms"""
+    if not (isinstance(e, ast.Call) and (dotted_name(e.func) or '').split('.')[-1] == 'arange' and not e.keywords and 1 <= len(e.args) <= 3):
+        raise Untranslatable('not an arange: ' + ast.unparse(e))
+    a = [tr.as_int(tr.tr(x)) for x in e.args]
+    if len(a) == 1:
+        return '(0 : Int)', a[0], '(1 : Int)'
+    return a[0], a[1], (a[2] if len(a) == 3 else '(1 : Int)')
+
+
+class TrZ:
+    """typed translator of index arithmetic and guards into core-Lean terms.
+    Types: 'int' (Lean Int), 'item' (Lean Nat: ids, variables, positions), 'bool', 'obj' (an opaque object whose
+    attributes are functions), ('list', t), ('set', t) (represented by a list).  `env` maps Python names to
+    (lean term, type); `syms` maps exact source texts to (lean term, type); `attrs` maps attribute names to
+    (lean function, result type)."""
+
+    def __init__(self, env=None, syms=None, attrs=None, funcs=None, transparent=()):
+        self.env = dict(env or {})
+        self.syms = {k.replace(' ', ''): v for k, v in (syms or {}).items()}
+        self.attrs = dict(attrs or {})
+        # opaque functions: Python dotted name -> (lean function, result type or None = type of the first argument)
+        self.funcs = dict(funcs or {})
+        # method names that do not change a row read as a list (`.view(...)`, `.tolist()`, `.copy()` ...)
+        self.transparent = set(transparent)
+
+    def syms_src(self):
+        return dict(self.syms)
+
+    def child(self, **bind):
+        sub = TrZ(self.env, None, self.attrs, self.funcs, self.transparent)
+        sub.syms = self.syms
+        sub.env.update(bind)
+        return sub
+
+    # -- helpers
+    def as_int(self, tt):
+        t, ty = tt
+        if ty == 'int':
+            return t
+        if ty == 'item':
+            return f'(({t} : Nat) : Int)'
+        raise Untranslatable(f'integer expected, got {ty}: {t}')
+
+    def as_bool(self, tt):
+        if isinstance(tt[1], tuple) and tt[1][0] in ('list', 'set'):   # truthiness of a container
+            return f'(!{tt[0]}.isEmpty)'
+        if tt[1] != 'bool':
+            raise Untranslatable(f'boolean expected, got {tt[1]}: {tt[0]}')
+        return tt[0]
+
+    def seq(self, tt):
+        if not (isinstance(tt[1], tuple) and tt[1][0] in ('list', 'set')):
+            raise Untranslatable(f'list expected, got {tt[1]}: {tt[0]}')
+        return tt[0], tt[1][1]
+
+    def lam(self, args, body, elty):
+        """translate `body` with the single lambda / comprehension variable bound to an element of type `elty`"""
+        if len(args) != 1:
+            raise Untranslatable('lambda with several arguments')
+        sub = self.child(**{args[0]: (args[0], elty)})
+        t, ty = sub.tr(body)
+        return f'(fun {args[0]} => {t})', ty
+
+    def mapped(self, e):
+        """`map(lambda v: body, xs)`, `[body for v in xs]`, `(body for v in xs)` -> (lean list term, element type)"""
+        if isinstance(e, ast.Call) and dotted_name(e.func) == 'map' and len(e.args) == 2 and isinstance(e.args[0], ast.Lambda):
+            xs, elty = self.seq(self.tr(e.args[1]))
+            f, ty = self.lam([a.arg for a in e.args[0].args.args], e.args[0].body, elty)
+            return f'({xs}.map {f})', ty
+        if isinstance(e, (ast.ListComp, ast.GeneratorExp)) and all(not g.ifs and isinstance(g.target, ast.Name) for g in e.generators):
+            g = e.generators[0]
+            xs, elty = self.seq(self.tr(g.iter))
+            if len(e.generators) == 1:
+                f, ty = self.lam([g.target.id], e.elt, elty)
+                return f'({xs}.map {f})', ty
+            # [elt for a in A for b in B …] = A.flatMap (fun a => [elt for b in B …])
+            inner = type(e)(elt=e.elt, generators=e.generators[1:])
+            sub = self.child(**{g.target.id: (g.target.id, elty)})
+            t, ty = sub.mapped(inner)
+            return f'({xs}.flatMap (fun {g.target.id} => {t}))', ty
+        return None
+
+    # -- expressions
+    def tr(self, e):
+        key = ast.unparse(e).replace(' ', '')
+        if key in self.syms:
+            return self.syms[key]
+        if isinstance(e, ast.Constant):
+            if isinstance(e.value, bool):
+                return ('true' if e.value else 'false'), 'bool'
+            if isinstance(e.value, int):
+                return f'({e.value} : Int)', 'int'
+            if isinstance(e.value, str):
+                return lean_str(e.value), 'str'
+            raise Untranslatable('constant ' + repr(e.value))
+        if isinstance(e, ast.Name):
+            if e.id in self.env:
+                return self.env[e.id]
+            raise Untranslatable(f'free name {e.id}')
+        if isinstance(e, ast.Attribute):
+            if e.attr in self.attrs:
+                o, ty = self.tr(e.value)
+                if ty != 'obj':
+                    raise Untranslatable(f'attribute {e.attr} of a non-object')
+                f, rty = self.attrs[e.attr]
+                return f'({f} {o})', rty
+            raise Untranslatable('attribute ' + ast.unparse(e))
+        if isinstance(e, ast.UnaryOp):
+            a = self.tr(e.operand)
+            if isinstance(e.op, ast.USub):
+                return f'(-{self.as_int(a)})', 'int'
+            if isinstance(e.op, ast.Not):
+                return f'(!{self.as_bool(a)})', 'bool'
+            if isinstance(e.op, ast.Invert):
+                if a[1] == 'bool':
+                    return f'(!{a[0]})', 'bool'
+                if a[1] == ('list', 'bool'):   # element-wise negation of a boolean mask
+                    return f'({a[0]}.map (fun b => !b))', ('list', 'bool')
+            raise Untranslatable('unary ' + ast.unparse(e))
+        if isinstance(e, ast.BinOp):
+            a, b = self.tr(e.left), self.tr(e.right)
+            if isinstance(a[1], tuple) and a[1][0] == 'list' and a[1] == b[1] and isinstance(e.op, ast.Add):
+                return f'({a[0]} ++ {b[0]})', a[1]
+            if a[1] == 'bool' and b[1] == 'bool' and isinstance(e.op, (ast.BitAnd, ast.BitOr)):
+                return f'({a[0]} {"&&" if isinstance(e.op, ast.BitAnd) else "||"} {b[0]})', 'bool'
+            x, y = self.as_int(a), self.as_int(b)
+            if isinstance(e.op, (ast.Add, ast.Sub, ast.Mult)):
+                return f'({x} {BINOPS[type(e.op)]} {y})', 'int'
+            if isinstance(e.op, ast.FloorDiv):
+                return f'(Int.fdiv {x} {y})', 'int'
+            if isinstance(e.op, ast.Mod):
+                return f'(Int.fmod {x} {y})', 'int'
+            if isinstance(e.op, ast.Pow):
+                return f'({x} ^ ({y}).toNat)', 'int'
+            raise Untranslatable('operator ' + type(e.op).__name__)
+        if isinstance(e, ast.Compare):
+            parts, left = [], self.tr(e.left)
+            for op, rt in zip(e.ops, e.comparators):
+                right = self.tr(rt)
+                parts.append(self.cmp(op, left, right))
+                left = right
+            return (parts[0] if len(parts) == 1 else '(' + ' && '.join(parts) + ')'), 'bool'
+        if isinstance(e, ast.BoolOp):
+            j = ' || ' if isinstance(e.op, ast.Or) else ' && '
+            return '(' + j.join(self.as_bool(self.tr(v)) for v in e.values) + ')', 'bool'
+        if isinstance(e, ast.IfExp):
+            c, a, b = self.as_bool(self.tr(e.test)), self.tr(e.body), self.tr(e.orelse)
+            if a[1] != b[1]:
+                raise Untranslatable('branches of different types: ' + ast.unparse(e))
+            return f'(if {c} then {a[0]} else {b[0]})', a[1]
+        if isinstance(e, (ast.Tuple, ast.List)):
+            xs = [self.tr(x) for x in e.elts]
+            tys = {ty for _, ty in xs}
+            if len(tys) > 1:
+                raise Untranslatable('heterogeneous literal ' + ast.unparse(e))
+            ty = tys.pop() if tys else 'int'
+            return lean_list([t for t, _ in xs]), ('list', ty)
+        if isinstance(e, ast.Subscript):
+            base = self.tr(e.value)
+            xs, elty = self.seq(base)
+            if isinstance(e.slice, ast.Slice) and e.slice.step is None:
+                lo, hi = e.slice.lower, e.slice.upper
+                if lo is None and hi is not None:
+                    return f'(Py.take {xs} {self.as_int(self.tr(hi))})', base[1]
+                if hi is None and lo is not None:
+                    return f'(Py.drop {xs} {self.as_int(self.tr(lo))})', base[1]
+                raise Untranslatable('slice ' + ast.unparse(e))
+            if isinstance(e.slice, ast.Constant) and isinstance(e.slice.value, int) and e.slice.value >= 0 and elty in ('item', 'int'):
+                return f'({xs}.getD {e.slice.value} 0)', elty
+            ix = self.tr(e.slice)
+            if ix[1] == ('list', 'bool'):
+                return f'(Py.select {xs} {ix[0]})', base[1]
+            raise Untranslatable('subscript ' + ast.unparse(e))
+        m = self.mapped(e)
+        if m is not None:
+            return m[0], ('list', m[1])
+        if isinstance(e, ast.Call):
+            nm = dotted_name(e.func) or ''
+            base = nm.split('.')[-1]
+            if nm == 'len' and len(e.args) == 1:
+                xs, ty = self.tr(e.args[0])
+                if isinstance(ty, tuple) and ty[0] == 'list':
+                    return f'(({xs}.length : Nat) : Int)', 'int'
+                if ty == ('set', 'item'):
+                    return f'(((Py.dedup {xs}).length : Nat) : Int)', 'int'
+                raise Untranslatable('len of ' + str(ty))
+            if nm == 'int' and len(e.args) == 1 and not e.keywords:
+                return self.as_int(self.tr(e.args[0])), 'int'
+            if base == 'ceil' and len(e.args) == 1 and isinstance(e.args[0], ast.BinOp) and isinstance(e.args[0].op, ast.Div):
+                # ceil of an exact quotient of integers: -((-a) // b)
+                a, b = self.as_int(self.tr(e.args[0].left)), self.as_int(self.tr(e.args[0].right))
+                return f'(-(Int.fdiv (-{a}) {b}))', 'int'
+            if nm == 'range' and len(e.args) == 1 and not e.keywords:
+                return f'(Py.arange 0 {self.as_int(self.tr(e.args[0]))} 1)', ('list', 'int')
+            if nm == 'set' and len(e.args) == 1:
+                xs, elty = self.seq(self.tr(e.args[0]))
+                return xs, ('set', elty)
+            if nm in ('list', 'tuple') and len(e.args) == 1:
+                xs, elty = self.seq(self.tr(e.args[0]))
+                return xs, ('list', elty)
+            if nm in ('any', 'all') and len(e.args) == 1:
+                xs, elty = self.seq(self.tr(e.args[0]))
+                if elty != 'bool':
+                    raise Untranslatable(nm + ' over non-booleans')
+                return f'({xs}.{nm} (fun b => b))', 'bool'
+            if nm == 'sum' and len(e.args) == 2 and isinstance(e.args[1], ast.List) and not e.args[1].elts:
+                xs, elty = self.seq(self.tr(e.args[0]))   # sum(list of lists, []) = concatenation
+                if not (isinstance(elty, tuple) and elty[0] == 'list'):
+                    raise Untranslatable('sum(…, []) over non-lists')
+                return f'({xs}.flatten)', elty
+            if nm in self.funcs and not e.keywords:
+                args = [self.tr(a) for a in e.args]
+                f, rty = self.funcs[nm]
+                return '(' + ' '.join([f] + [t for t, _ in args]) + ')', (rty if rty is not None else args[0][1])
+            if isinstance(e.func, ast.Attribute) and e.func.attr == 'issubset' and len(e.args) == 1:
+                a, b = self.tr(e.func.value), self.tr(e.args[0])
+                if a[1] == ('set', 'item') and b[1] == ('set', 'item'):
+                    return f'({a[0]}.all (fun v => {b[0]}.contains v))', 'bool'
+                raise Untranslatable('issubset on ' + str(a[1]))
+            if isinstance(e.func, ast.Attribute) and e.func.attr in self.transparent:
+                return self.tr(e.func.value)
+            if base in NP_COMPARE and len(e.args) == 2 and not e.keywords:   # np.less_equal(a, b) etc., element-wise
+                return self.cmp(NP_COMPARE[base](), self.tr(e.args[0]), self.tr(e.args[1])), 'bool'
+            if nm in ('max', 'min') and len(e.args) == 2 and not e.keywords:
+                return f'({nm} {self.as_int(self.tr(e.args[0]))} {self.as_int(self.tr(e.args[1]))})', 'int'
+            raise Untranslatable('call ' + ast.unparse(e))
+        raise Untranslatable('expression ' + ast.unparse(e))
+
+    def cmp(self, op, a, b):
+        if isinstance(a[1], tuple) or isinstance(b[1], tuple):
+            if a[1] == ('set', 'item') and b[1] == ('set', 'item') and isinstance(op, (ast.Eq, ast.NotEq)):
+                t = f'(Py.setEqB {a[0]} {b[0]})'
+                return t if isinstance(op, ast.Eq) else f'(!{t})'
+            raise Untranslatable('comparison of ' + str(a[1]) + ' and ' + str(b[1]))
+        if a[1] == b[1] and a[1] in ('bool', 'str') and isinstance(op, (ast.Eq, ast.NotEq)):
+            return f'({a[0]} {"==" if isinstance(op, ast.Eq) else "!="} {b[0]})'
+        x, y = self.as_int(a), self.as_int(b)
+        if isinstance(op, (ast.Eq, ast.NotEq)):
+            return f'({x} {"==" if isinstance(op, ast.Eq) else "!="} {y})'
+        s = {ast.Lt: '<', ast.LtE: '≤', ast.Gt: '>', ast.GtE: '≥'}.get(type(op))
+        if s is None:
+            raise Untranslatable('comparison ' + type(op).__name__)
+        return f'(decide ({x} {s} {y}))'
+
+    # -- statements
+    def chain(self, stmts, counter=None):
+        """a block of assignments and `if <test>: return <value>` guards ending in `return None` (or falling through)
+        as a Lean term of type `Option Nat`: `some k` = the k-th guard (source order, from 0) fired, `none` = passed."""
+        counter = counter if counter is not None else [0]
+        if not stmts:
+            return 'none'
+        s, rest = stmts[0], stmts[1:]
+        if isinstance(s, ast.Expr) and isinstance(s.value, ast.Constant):
+            return self.chain(rest, counter)
+        if isinstance(s, ast.Return):
+            if s.value is None or (isinstance(s.value, ast.Constant) and s.value.value is None):
+                return 'none'
+            k = counter[0]; counter[0] += 1
+            return f'some {k}'
+        if isinstance(s, ast.Assign) and len(s.targets) == 1 and isinstance(s.targets[0], ast.Name):
+            t, ty = self.tr(s.value)
+            nm = s.targets[0].id
+            sub = self.child(**{nm: (nm, ty)})
+            return f'let {nm} := {t};\n  {sub.chain(rest, counter)}'
+        if isinstance(s, ast.If) and not s.orelse and len(s.body) == 1 and isinstance(s.body[0], (ast.Return, ast.Raise)):
+            r = s.body[0]
+            if isinstance(r, ast.Return) and (r.value is None or (isinstance(r.value, ast.Constant) and r.value.value is None)):
+                raise Untranslatable('guard returning None')
+            c = self.as_bool(self.tr(s.test))
+            k = counter[0]; counter[0] += 1
+            return f'if {c} then some {k}\n  else {self.chain(rest, counter)}'
+        raise Untranslatable('statement ' + ast.unparse(s).splitlines()[0])
+
+
+def branch_value(tr, ifstmt, var):
+    """value of `var` after `if t: <assignments> else: <assignments>` as a Lean conditional (both branches must assign it;
+    an `elif` chain nests)"""
+    c = tr.as_bool(tr.tr(ifstmt.test))
+    def side(stmts):
+        if len(stmts) == 1 and isinstance(stmts[0], ast.If):
+            return branch_value(tr, stmts[0], var)
+        if not any(isinstance(st, ast.Assign) and target_key(st.targets[0]) == var for st in stmts):
+            raise Untranslatable(f'{var} is not assigned in a branch')
+        return let_block(tr, stmts, ast.Name(id=var, ctx=ast.Load()))
+    (a, ta), (b, tb) = side(ifstmt.body), side(ifstmt.orelse)
+    if ta != tb:
+        raise Untranslatable(f'{var}: branches of different types')
+    return f'(if {c} then ({a}) else ({b}))', ta
+
+
+def cases_value(tr, ifstmt, target):
+    """`if t1: <target> = v1 elif t2: <target> = v2 … else: raise` as `if t1 then some v1 else if t2 then some v2 … else none`"""
+    c = tr.as_bool(tr.tr(ifstmt.test))
+    st = the(ifstmt.body, 'single statement of a case')
+    if not (isinstance(st, ast.Assign) and target_key(st.targets[0]) == target.replace(' ', '')):
+        raise Untranslatable(f'a case does not just assign {target}')
+    v, ty = tr.tr(st.value)
+    rest = ifstmt.orelse
+    if len(rest) == 1 and isinstance(rest[0], ast.If):
+        r, rty = cases_value(tr, rest[0], target)
+        if rty != ty:
+            raise Untranslatable('cases of different types')
+    elif len(rest) == 1 and isinstance(rest[0], ast.Raise):
+        r = 'none'
+    else:
+        raise Untranslatable('the chain of cases does not end with a raise')
+    return f'if {c} then some {v}\n  else {r}', ty
+
+
+def let_block(tr, stmts, result):
+    """`stmts` (assignments to plain names; other statements are skipped when `skip` says so) as nested Lean `let`s
+    around the translation of the expression `result` (an AST node, or a function of the final translator)"""
+    if not stmts:
+        t = result(tr) if callable(result) else tr.tr(result)
+        return t
+    s, rest = stmts[0], stmts[1:]
+    if isinstance(s, ast.Assign) and len(s.targets) == 1 and isinstance(s.targets[0], ast.Name):
+        t, ty = tr.tr(s.value)
+        nm = s.targets[0].id
+        body, bty = let_block(tr.child(**{nm: (nm, ty)}), rest, result)
+        return f'let {nm} := {t};\n  {body}', bty
+    raise Untranslatable('statement ' + ast.unparse(s).splitlines()[0])
+
+
+def loop_over(fn, var, iter_text=None):
+    """the `for <var> in …:` loop of `fn`"""
+    fs = [s for s in walk_stmts(fn) if isinstance(s, ast.For) and isinstance(s.target, ast.Name) and s.target.id == var
+          and (iter_text is None or ast.unparse(s.iter).replace(' ', '') == iter_text.replace(' ', ''))]
+    return the(fs, f'for {var} in … loop')
+
+
 # ----------------------------------------------------------------------------- fragments
 class Out:
     def __init__(self):
@@ -306,7 +825,7 @@ def generate(repo, outdir, write_if_changed):
     import fragments
     fragments.emit(o, repo, sys.modules[__name__])
     consts = ('/- GENERATED by tools/py2lean.py from the /repo working tree — do not edit. -/\n'
-              'namespace Deeprob.Gen\n\n' + '\n\n'.join(o.consts) + '\n\nend Deeprob.Gen\n')
+              'set_option linter.unusedVariables false\nnamespace Deeprob.Gen\n\n' + PY_PRELUDE + '\n\n' + '\n\n'.join(o.consts) + '\n\nend Deeprob.Gen\n')
     formulas = ('/- GENERATED by tools/py2lean.py from the /repo working tree — do not edit. -/\n'
                 'import DeeprobModel.Spec.ExpLog\n'
                 'set_option linter.unusedVariables false\n'
